@@ -309,7 +309,7 @@ def run(ctx):
         if quick:
             depth = 5 if c.get("deep") else 4
         else:
-            depth = 6 if prim else 5
+            depth = 6 if c.get("deep") else 5
         # exhaustive, zero-filled raw storage
         p = plan_enum(alpha, depth)
         for prefix in itertools.product(alpha, repeat=p):
@@ -324,7 +324,7 @@ def run(ctx):
             plan.append("poisoned %d ^ %d" % (len(alpha), pd))
         # deepest level over the reduced alphabet
         ra = M.reduced_alphabet(c["family"], c.get("mk"))
-        if ra and not quick and c["et"] == "int":
+        if ra and not quick and c["et"] == "int" and c["mk"] in ("vec", "svec"):
             p = plan_enum(ra, 7, per_case=10000)
             for prefix in itertools.product(ra, repeat=p):
                 add(c, enum_line(c, 0, ra, list(prefix), 7 - p), dict(kind="enum", alpha=ra, prefix=list(prefix), depth=7 - p, fill=0))
@@ -333,7 +333,7 @@ def run(ctx):
         tl = 2 if quick else 3
         for seq in itertools.product(alpha, repeat=tl):   # prefix-closed: shorter ones are contained
             add(c, hist_line(c, 0, list(seq)), dict(kind="hist", steps=list(seq), fill=0))
-        nrand, maxlen, nquiet = (500, 60, 0) if quick else (1000, 200, 10000)
+        nrand, maxlen, nquiet = (500, 60, 0) if quick else (1000, 200, 5000)
         for _ in range(nrand):
             st = M.random_history(rng, c["family"], c.get("ak", c.get("mk")), maxlen)
             add(c, hist_line(c, 0, st), dict(kind="hist", steps=st, fill=0, random=True))
@@ -494,7 +494,7 @@ def run_memcheck(ctx, configs, rng):
             i = "m%d" % n
             per_bin.setdefault(c["bin"], []).append((i, "%s %s" % (i, hist_line(c, 0, st))))
             meta[i] = dict(c=c, kind="hist", steps=st, fill=0)
-    wrapper = ["valgrind", "-q", "--leak-check=no", "--error-exitcode=0", "--undef-value-errors=yes"]
+    wrapper = ["valgrind", "-q", "--leak-check=no", "--error-exitcode=0", "--undef-value-errors=yes", "--error-limit=no"]
     hist = 0
     errs = 0
     accs = {cname(c): Acc() for c in configs}
